@@ -17,7 +17,7 @@ use crate::{
     props::{c03, diff_fields, perf_diff_fields, sig_fields},
     rng::{hash_str, Rng},
     runner::{guard, Ctx},
-    sets::{self, ScoreSpec, SetDomain, SetSpec},
+    sets::{self, ScoreSpec, SetSpec},
 };
 
 type Builder<'a> = Box<dyn FnOnce() -> Option<Performance<'a>> + 'a>;
@@ -191,7 +191,7 @@ pub fn gen_inputs(ctx: &Ctx, rng: &mut Rng, tag: &str) -> Option<(gen::MapCase, 
         gen::gen_domain_map(rng, &mx, Domain::Realistic)?
     };
     let mode = gen::pick_mode(rng, &map);
-    let mut spec = sets::gen_setspec(rng, mode, SetDomain::Game);
+    let mut spec = sets::gen_setspec_wide(rng, mode, &map);
     let n = map.hit_objects.len() as u32;
     if rng.chance(0.5) {
         spec.passed = Some(match rng.below(6) {
